@@ -15,18 +15,7 @@ for p in props:
     pid = p["id"]
     path = os.path.join(HERE, "props", pid + ".py")
     if os.path.exists(path):
-        src = open(path).read()
-        ns = {}
-        # META is a literal dict at module level
-        import ast
-
-        tree = ast.parse(src)
-        meta = None
-        for node in tree.body:
-            if isinstance(node, ast.Assign) and getattr(node.targets[0], "id", None) == "META":
-                meta = ast.literal_eval(node.value)
-        if meta is None:
-            raise SystemExit("no META in " + path)
+        meta = importlib.import_module("props." + pid).META
         checks.append(
             {
                 "property_id": pid,
